@@ -18,9 +18,8 @@ import sys
 
 # groups of functions that hand-written models transcribe (none of them is covered by a translator)
 GROUPS: dict[str, list[tuple[str, str]]] = {
-    # _build_evaluator / _build_vector_evaluator are translated whole (py2lean_build.py -> Generated/BuildStep, Props/BuildTie)
+    # _build_evaluator / _build_vector_evaluator / the loop of _build_evaluator_iterative are translated whole (py2lean_build.py -> Generated/BuildStep, Props/BuildTie)
     "compile": [("core/compiler.py", n) for n in ("compile_expression", "_compile_cached", "_estimate_tree_depth", "_param_value",
-                                                   "_build_evaluator_iterative",
                                                    "compile_to_dict_function", "CompiledExpression")],
     "jacobian": [("core/compiler.py", n) for n in ("compile_gradient", "_compile_vectorized_power_gradient",
                                                     "_compile_vectorized_unary_gradient")]
